@@ -150,6 +150,20 @@ Verdict(c, roots, a) ==
     ELSE F("C09.RejectedClientError", a.status >= 400 /\ a.status <= 499)
          \cup F("C09.RejectedNoLeaf", ~a.leaf)
 
+\* An accepted leaf submitted again through another chain: the certificate of the CA
+\* directly under its root issued (cross-signed) by the root of hierarchy root2.  The
+\* entry is the same one (same certificate, or same TBS and issuer key), whatever the
+\* log does about duplicates; the chain is judged like any other: accepted exactly when
+\* it ends in an accepted root, and then every certificate of *this* chain is a
+\* retrievable issuer (positions 1 .. FullLen(c) - 1 of the alternative chain).
+ResubVerdict(c, root2, roots, a) ==
+    IF Accept([c EXCEPT !.root = root2], roots)
+    THEN F("C09.AcceptedStatus", a.status = 200)
+         \cup (IF a.status # 200 THEN {} ELSE
+               F("C09.AcceptedSCT", a.sct /\ a.sctOk)
+               \cup F("C09.IssuersRetrievable", (1..(FullLen(c) - 1)) \subseteq AsSet(a.retrievable)))
+    ELSE F("C09.RejectedClientError", a.status >= 400 /\ a.status <= 499)
+
 \* get-roots: exactly the current root set (names: the harness maps every
 \* returned certificate to the name of its hierarchy, "?" for anything else).
 RootsVerdict(roots, status, names) ==
